@@ -130,10 +130,16 @@ func genScenario(r *hk.Rand, proto int, idx int) scenario {
 			// User-Agent, which is what the code does and what the model pins)
 			ua = hdrOp{Kind: "nc", K: hk.Pick(r, []string{"user-agent", "user-agent", "USER-AGENT", "User-agent", "uSeR-aGeNt"}), V: "lower-agent/2"}
 		}
+		uas := []hdrOp{ua}
+		if ua.Kind == "set" && ua.V != "" && r.Chance(20) {
+			// a multi-valued User-Agent under the canonical key: all writers send at most one
+			// User-Agent per map key, its first value (net/http behaviour, followed and pinned)
+			uas = []hdrOp{{Kind: "nc", K: "User-Agent", V: ua.V}, {Kind: "nc", K: "User-Agent", V: "second-agent/9"}}
+		}
 		if r.Bool() {
-			sc.Req = append(sc.Req, ua)
+			sc.Req = append(sc.Req, uas...)
 		} else {
-			sc.Cli = append(sc.Cli, ua)
+			sc.Cli = append(sc.Cli, uas...)
 		}
 		names = append(names, "user-agent")
 	}
